@@ -92,7 +92,8 @@ def observe_grid(g, hs):
 
 OLSON = {'UTC': 'UTC', 'London': 'Europe/London', 'New_York': 'America/New_York', 'Kathmandu': 'Asia/Kathmandu',
          'Lord_Howe': 'Australia/Lord_Howe', 'GMT+5': 'Etc/GMT+5', 'Paris': 'Europe/Paris', 'Sydney': 'Australia/Sydney',
-         'Kolkata': 'Asia/Kolkata', 'Sao_Paulo': 'America/Sao_Paulo', 'Chatham': 'Pacific/Chatham'}
+         'Kolkata': 'Asia/Kolkata', 'Sao_Paulo': 'America/Sao_Paulo', 'Chatham': 'Pacific/Chatham', 'St_Johns': 'America/St_Johns',
+         'Marquesas': 'Pacific/Marquesas', 'Caracas': 'America/Caracas', 'Adelaide': 'Australia/Adelaide', 'Los_Angeles': 'America/Los_Angeles'}
 
 
 def olson(hname):
